@@ -24,7 +24,7 @@ import (
 
 func init() {
 	suites["qconc"] = suite{
-		rule: "real ring and flow buffer under P=1..32 caller goroutines x 2^k slots (k=1..6), one writer, one reader, PutOne/PutMulti mixed, random Gosched/sleep perturbation, GOMAXPROCS in {1,2,4,all} (thorough: more); one episode = one run, the linearised log is judged line by line by the FIFO specification; non-trivial = episode with more callers in flight than slots or more commands than slots (wrap-around); a watchdog reports hangs",
+		rule: "staged episodes first (2/4/8 slots: every slot written and unanswered, writer parked in WaitForWrite on the oldest slot, 1-4 extra callers blocked on it, only then the reader starts; hang => ring:deadlock:full-ring-writer-parked), then real ring and flow buffer under P=1..32 caller goroutines x 2^k slots (k=1..6), one writer, one reader, PutOne/PutMulti mixed, random Gosched/sleep perturbation, GOMAXPROCS in {1,2,4,all} (thorough: more); one episode = one run, the linearised log is judged line by line by the FIFO specification; non-trivial = episode with more callers in flight than slots or more commands than slots (wrap-around); a watchdog reports hangs",
 		run:  runConc,
 		replay: func(c *Ctx, lines []string) {
 			// a recorded history cannot be re-scheduled; it is re-judged as recorded
